@@ -103,6 +103,9 @@ ATTR = [
     (r"^cancelled-run-ends-early-parent-aborted-success$", ["C11", "C09"]),
     (r"^cancelled-run-ends-early", ["C11"]),
     (r"^predicates$", ["C14"]),
+    (r"^results-nested-scheduler$", ["C14", "C10"]),
+    (r"^results-exception$", ["C14", "C06"]),
+    (r"^results-", ["C14"]),
     (r"^no-progress-", ["C03"]),
     (r"^top-early$", ["C03", "C11"]),
     (r"^top-other$", ["C04"]),
